@@ -34,11 +34,17 @@ def combos(ctx, rnd):
         else:
             if all(',' not in p and '{' not in p for p in pieces) and len(pieces) > 1 and not ex:
                 cases.append(('{' + ','.join(pieces) + '}', tuple(pieces), (), fl | B, False))
-    # hand-written: the shapes named in the statement
+    # hand-written: the shapes named in the statement (run on every template, also in quick)
+    n_random = len(cases)
     cases += [(['*', 'U*'], ('*', 'U*'), (), I, True), (['a', 'f'], ('a', 'f'), ('*/',), 0, True), (['d', 'f'], ('d', 'f'), ('*/',), N, False) if False else
               (['d', 'f', '!*/'], ('d', 'f'), ('*/',), N, False), ('*|*e|d', ('*', '*e', 'd'), (), SP | SD, False), ('{*,d,f}', ('*', 'd', 'f'), (), B | SD, False),
               (['!a'], (), ('a',), N | NA | S, False), (['!**/x'], (), ('**/x',), N | NA | S, False), (['*', '*'], ('*', '*'), (), NU, True),
               (['**', 'a/*'], ('**', 'a/*'), ('**/x',), S | NU, True), (['a', './a', 'a/'], ('a', './a', 'a/'), (), 0, True)]
+    # one input string that SPLIT / BRACE expands into overlapping patterns, under every uniqueness-related flag
+    for fl in (0, SD, S | SD, S, I):
+        for comb, pieces in (('*|*|a', ('*', '*', 'a')), ('*|?|d|f', ('*', '?', 'd', 'f')), ('{*,a,d,f}', ('*', 'a', 'd', 'f')), ('{*,*}', ('*', '*')), ('a|a', ('a', 'a')), ('{d,d/}', ('d', 'd/'))):
+            cases.append((comb, pieces, (), fl | (B if comb.startswith('{') else SP), False))
+    n_all_templates = len(cases)
     for q in ['*', 'a', 'd', '**', 'd/*', 'd/**', '*/*', 'Data', 'p/q', '?']:
         for fl in (S, S | NU, S | SD):
             cases.append(([q, q + '/'], (q, q + '/'), (), fl, True))
@@ -61,7 +67,7 @@ def combos(ctx, rnd):
             cases.append(('|'.join(pieces), pieces, (), fl | SP, False))
     out = []
     for k, c in enumerate(cases):
-        ts = names if not ctx.quick else [names[(k + j) % len(names)] for j in range(3)] + (['case'] if c[3] & (I | G.FORCEWIN | G.FORCEUNIX) else [])
+        ts = names if (not ctx.quick or n_random <= k < n_all_templates) else [names[(k + j) % len(names)] for j in range(3)] + (['case'] if c[3] & (I | G.FORCEWIN | G.FORCEUNIX) else [])
         for t in ts:
             out.append(('c13', t, c))
     return out
